@@ -47,7 +47,7 @@ func loadProgram(patterns []string) (*Exec, error) {
 	x := &Exec{
 		prog: prog, pkgs: map[string]*packages.Package{}, ssaPkgs: map[string]*ssa.Package{},
 		specs: map[string]*SpecFile{}, contracts: map[string]*Contract{}, ghosts: map[string]*GhostFunc{},
-		notes: map[string]bool{}, used: map[string]bool{}, maxPaths: 20000, variants: map[string][]*Contract{}, funcVals: map[string]*ssa.Function{}, ghostFields: map[string]*GhostField{}, definingGhost: map[string]bool{}, loopFrameHeaps: map[*ssa.BasicBlock][]string{}, loopsOf: map[*ssa.Function]*loopInfo{},
+		notes: map[string]bool{}, used: map[string]bool{}, maxPaths: 20000, variants: map[string][]*Contract{}, funcVals: map[string]*ssa.Function{}, ghostFields: map[string]*GhostField{}, definingGhost: map[string]bool{}, fnInfos: map[string]*fnInfo{}, loopFrameHeaps: map[*ssa.BasicBlock][]string{}, loopsOf: map[*ssa.Function]*loopInfo{},
 	}
 	packages.Visit(pkgs, nil, func(p *packages.Package) {
 		x.pkgs[p.PkgPath] = p
@@ -372,3 +372,5 @@ func (x *Exec) funcByName(pkgPath, name string) *ssa.Function {
 	}
 	return found
 }
+
+func byteType() types.Type { return types.Typ[types.Uint8] }
